@@ -297,7 +297,35 @@ func (cp *convpair) checkFormatArg(fname string, arg ast.Expr) {
 func ruleZeroColour(c *Ctx, rule string) {
 	fd, p := c.decl("io/featio/bed", "format")
 	n := 0
-	ast.Inspect(fd.Body, func(x ast.Node) bool {
+	visit := zeroColourVisitor(c, rule, p, &n)
+	for _, d := range astReach(p, fd) {
+		ast.Inspect(d.Body, func(x ast.Node) bool { return visit(x) })
+	}
+	if n == 0 {
+		c.und(rule, "bed.format/zero-colour-test", fd.Pos(), "no branch writing the \"0\" colour found")
+	}
+}
+
+// astReach: fd and the functions of its package that it calls (transitively), in call order.
+func astReach(p *packages.Package, fd *ast.FuncDecl) []*ast.FuncDecl {
+	out := []*ast.FuncDecl{fd}
+	seen := map[*ast.FuncDecl]bool{fd: true}
+	for i := 0; i < len(out) && i < 16; i++ {
+		ast.Inspect(out[i].Body, func(x ast.Node) bool {
+			if call, ok := x.(*ast.CallExpr); ok {
+				if h := helperDecl(p, call); h != nil && !seen[h] {
+					seen[h] = true
+					out = append(out, h)
+				}
+			}
+			return true
+		})
+	}
+	return out
+}
+
+func zeroColourVisitor(c *Ctx, rule string, p *packages.Package, n *int) func(x ast.Node) bool {
+	return func(x ast.Node) bool {
 		ifs, ok := x.(*ast.IfStmt)
 		if !ok {
 			return true
@@ -339,8 +367,8 @@ func ruleZeroColour(c *Ctx, rule string) {
 		if nested {
 			return true
 		}
-		n++
-		key := fmt.Sprintf("bed.format/zero-colour-test#%d", n)
+		*n++
+		key := fmt.Sprintf("bed.format/zero-colour-test#%d", *n)
 		whole, alpha := false, false
 		ast.Inspect(ifs.Cond, func(y ast.Node) bool {
 			switch e := y.(type) {
@@ -361,9 +389,6 @@ func ruleZeroColour(c *Ctx, rule string) {
 			c.bad(rule, key, ifs.Pos(), "the writer spells a colour \"0\" under a test that ignores its alpha component: opaque black {0,0,0,255} — what the reader produces for \"0,0,0\" — is written as \"0\" and reads back as the zero colour")
 		}
 		return true
-	})
-	if n == 0 {
-		c.und(rule, "bed.format/zero-colour-test", fd.Pos(), "no branch writing the \"0\" colour found")
 	}
 }
 
